@@ -266,6 +266,9 @@ fn cycles() -> Vec<(&'static str, String)> {
     vec![
         ("fragment_self_cycle", "type Query { a: Query }\n{ ...F }\nfragment F on Query { a { ...F } }".into()),
         ("fragment_cycle_via_inline", "type Query { a: Query }\n{ ...F }\nfragment F on Query { a { ... on Query { a { ...G } } } }\nfragment G on Query { ... { ...F } }".into()),
+        ("fragment_cycle_behind_acyclic_prefix", "type Query { a: Query }\n{ ...A }\nfragment A on Query { ...B }\nfragment B on Query { a { ...C } }\nfragment C on Query { ...B }".into()),
+        ("fragment_cycle_behind_two_prefixes", "type Query { a: Query }\nquery Q { ...P1 ...P2 }\nfragment P1 on Query { ...X }\nfragment P2 on Query { a { ...Y } }\nfragment X on Query { ...Y }\nfragment Y on Query { ...Z }\nfragment Z on Query { a { ...Y } }".into()),
+        ("introspection_fragment_cycle_behind_prefix", "type Query { a: Int }\n{ __schema { types { ...A } } }\nfragment A on __Type { ...B }\nfragment B on __Type { fields { type { ...C } } }\nfragment C on __Type { ofType { ...B } }".into()),
         ("fragment_two_cycle", "type Query { a: Query }\n{ ...A }\nfragment A on Query { ...B }\nfragment B on Query { ...A }".into()),
         ("directive_self_cycle", "directive @d(a: Int @d) on ARGUMENT_DEFINITION\ntype Query { a: Int }".into()),
         ("directive_cycle_via_enum_value", "directive @d(a: E) on ENUM_VALUE\nenum E { A @d(a: A) }\ntype Query { a: E }".into()),
@@ -319,6 +322,13 @@ pub fn run(ctx: &mut Ctx) {
             }
             let t = gen(n);
             check_case(ctx, &t, "limit_chain", expect.map(|o| (*kind, o)));
+        }
+    }
+    // every surrogate \uXXXX escape (must be a syntax error, never reach string decoding)
+    for cp in 0xD7F0u32..=0xE010 {
+        if ctx.mine(cp as u64) {
+            let t = format!("\"\\u{cp:04X}\" type Query {{ a(x: String = \"\\u{cp:04x}\"): Int }} {{ a(x: \"\\u{cp:04X}\") }}");
+            check_case(ctx, &t, "surrogate_escape_sweep", None);
         }
     }
     if ctx.shard == 0 {
@@ -377,6 +387,25 @@ pub fn run(ctx: &mut Ctx) {
                 let (kind, t) = src.random(&mut rng);
                 let _ = kind;
                 check_case(ctx, &t, "hostile_text", None);
+            }
+            9 if rng.bool() => {
+                // random fragment spread graphs (cycles reached behind acyclic prefixes, diamonds)
+                let n = rng.range(2, 7);
+                let mut t = String::from("type Query { a: Query b: Int }\n{ ...F0 }\n");
+                for i in 0..n {
+                    let mut body = String::from("b ");
+                    for j in 0..n {
+                        if rng.chance(1, 3) {
+                            if rng.bool() {
+                                body.push_str(&format!("...F{j} "));
+                            } else {
+                                body.push_str(&format!("a {{ ...F{j} }} "));
+                            }
+                        }
+                    }
+                    t.push_str(&format!("fragment F{i} on Query {{ {body}}}\n"));
+                }
+                check_case(ctx, &t, "random_fragment_graph", None);
             }
             _ => {
                 // a chain of random length and kind, no expectation (sweeps all lengths)
